@@ -3,6 +3,10 @@
 import glob, json, os, ast
 ROOT = os.path.dirname(os.path.dirname(os.path.abspath(__file__)))
 notes = json.load(open(os.path.join(ROOT, "seeded", "notes.json")))
+try:
+    regress = json.load(open(os.path.join(ROOT, "seeded", "regress.json")))["results"]
+except Exception:
+    regress = {}
 rows = []
 for d in sorted(glob.glob(os.path.join(ROOT, "seeded", "*", "meta.json"))):
     m = json.load(open(d))
@@ -18,13 +22,19 @@ for d in sorted(glob.glob(os.path.join(ROOT, "seeded", "*", "meta.json"))):
             cells.append(f"{r['check']}:quiet")
         else:
             cells.append(f"{r['check']}:rc={r['rc']}")
-    rows.append(f"| `{m['id']}` | {m['breaks_property']} | {', '.join(cells)} | {notes['strength'].get(m['id'], '')} |")
+    now = regress.get(m["id"])
+    final = f"{now['property']}: {now['verdict']}" if now else "(not re-run)"
+    rows.append(f"| `{m['id']}` | {m['breaks_property']} | {final} | {', '.join(cells)} | {notes['strength'].get(m['id'], '')} |")
 head = """# Seeded changes
 
 Each directory holds `patch.diff` (apply with `git -C /repo apply`), `demo.py`, `notes.md` (from the independent sub-agent that wrote the change, which saw only the property text and a scratch worktree) and `meta.json` (what was confirmed and which checks were run against it, with their output). Confirmed = the unedited suite passes with the change, the demonstration fails with it and passes without it. `tools/seed_eval.py` does the confirmation and the runs; `tools/seeded_readme.py` writes this file.
 
-| id | breaks | quick checks run against it (final state of the checks) | strengthening it caused |
-|---|---|---|---|
+`tools/seeded_regress.py` re-runs every change against the *current* checks and writes `regress.json`; the third column
+is that result for the property the change breaks (`failing input` = reported with a concrete replay). The fourth column is the
+state when the change was first evaluated (all checks that were run against it then), before the strengthening in the last column.
+
+| id | breaks | current quick check of that property | when first evaluated | strengthening it caused |
+|---|---|---|---|---|
 """
 open(os.path.join(ROOT, "seeded", "README.md"), "w").write(head + "\n".join(rows) + "\n\n" + notes["footer"] + "\n")
 print(len(rows), "rows")
